@@ -1,4 +1,5 @@
 import Proofs.Text
+import Proofs.TextCsv
 /-!
 # C19 — text forms of instances, solutions and result tables round-trip
 
@@ -137,6 +138,116 @@ theorem ordFromStr_ok (n : Nat) (dt : DType) (s : Str) (x : List Int)
   repeat' split at h
   all_goals try (cases h; done)
   all_goals (cases h; assumption)
+
+/-! ## (5) CSV tables of `PackingResult` -/
+end Text
+
+namespace Csv
+open Text
+
+/-- **csv_roundtrip** (`PackingResult`, table level, modulo the embedded moptipy codec) — for every finite
+list of records in the domain `PRDomain` (records as the package produces them: accepted by the
+constructor, objective names plain, **every bin-bound key `bins.lowerBound` or `bins.lowerBound.<x>` and
+at least one present**; records may differ in algorithm / optimised objective / encoding / optional
+budget and goal fields — all inside the opaque embedded record — and even in which objectives and bin
+bounds they carry), if the writer accepts the table (no duplicate or empty title) then the reader
+returns exactly the records written, in file order: all four instance numbers, all objective values, all
+objective bounds and all bin bounds **with their keys**.
+`PRDomain.codec` is the explicit assumption that moptipy's own `EndResult` CSV codec round-trips. -/
+theorem csv_roundtrip {ER : Type} (C : Codec ER) (V : ErView ER) (rs : List (PRec ER))
+    (D : PRDomain C V rs) (t : Table) (hw : prWrite C rs = some t) : prRead C V t = some rs :=
+  prRead_prWrite C V rs D t hw
+
+/-- `from_csv(to_csv(rs)) = sorted(rs)`: `to_csv` writes the records in the order of `sorted`
+(any function; moptipy sorts by the embedded end result), `from_csv` yields them in file order. -/
+theorem csv_to_from {ER : Type} (C : Codec ER) (V : ErView ER) (sort : List (PRec ER) → List (PRec ER))
+    (rs : List (PRec ER)) (D : PRDomain C V (sort rs)) (t : Table) (hw : prToCsv C sort rs = some t) :
+    prFromCsv C V t = some (sort rs) :=
+  prRead_prWrite C V (sort rs) D t hw
+
+/-- `csv_write` drops the empty cells at the end of a row and `csv_read` pads them again -/
+theorem csv_trim_pad (cells : List Str) : padRow cells.length (trimRow cells) = some cells :=
+  padRow_trimRow cells cells.length rfl
+
+/-- the reader's `__init__` finds, on the writer's header, every column where the writer put it
+(`expReader`): the layout clause "column titles = embedded columns ++ four fixed ++ sorted bin bounds ++
+(lower, value, upper) per sorted objective; reader = selection by title in the order the constructor
+consumes the dictionary". -/
+theorem csv_reader_layout {ER : Type} (C : Codec ER) (V : ErView ER) (rs : List (PRec ER))
+    (D : PRDomain C V rs) (hn : (prHeader C rs).Nodup) :
+    prSetup C.keys (prHeader C rs).zipIdx = some (expReader C rs) := by
+  obtain ⟨r0, hr0, hbb0⟩ := D.bbSome
+  apply prSetup_header C rs hn D.codec.sub D.keysDisj
+  · intro k hk
+    obtain ⟨r, hr, p, hp, rfl⟩ := of_mem_bbKeys rs hk
+    exact D.bbKey r hr p hp
+  · intro he
+    cases hb : r0.binBounds with
+    | nil => exact hbb0 hb
+    | cons p l =>
+      have := mem_bbKeys rs hr0 (p := p) (by rw [hb]; simp)
+      rw [he] at this; cases this
+  · intro o ho
+    obtain ⟨r, hr, p, hp, rfl⟩ := of_mem_objKeys rs ho
+    exact D.objName r hr p hp
+  · intro he
+    cases ho : r0.objectives with
+    | nil => exact objectives_ne_nil_of_ok V (D.ok r0 hr0) ho
+    | cons p l =>
+      have := mem_objKeys rs hr0 (p := p) (by rw [ho]; simp)
+      rw [he] at this; cases this
+
+/-! ### non-vacuity: a concrete codec and a heterogeneous record set in the domain -/
+
+/-- a one-column embedded codec: the record is the algorithm name -/
+def tinyCodec : Codec Str where
+  titles _ := ["algorithm".toList]
+  row _ r := [r]
+  keys := ["algorithm".toList, "encoding".toList]
+  read f := f "algorithm".toList
+
+def tinyView : ErView Str := ⟨fun _ => sBinCount, fun _ => 5⟩
+
+theorem tinyCodec_roundTrips (data : List Str) : tinyCodec.RoundTrips data where
+  nodup := by simp [tinyCodec]
+  sub := by simp [tinyCodec]
+  len := by simp [tinyCodec]
+  back := by
+    intro r _ f h _
+    exact h ("algorithm".toList, r) (by simp [tinyCodec])
+
+def demoRecs : List (PRec Str) :=
+  [⟨"a1".toList, 10, 5, 100, 50, [(sBinCount, 5)],
+      [(scopeKey sBinCount sLower, 1), (scopeKey sBinCount sUpper, 9)], [(sBinsLB, 2)]⟩,
+   ⟨"a2".toList, 10, 5, 100, 50, [(sBinCount, 5), ("binCountAndEmpty".toList, 517)],
+      [(scopeKey sBinCount sLower, 1), (scopeKey sBinCount sUpper, 9),
+       (scopeKey "binCountAndEmpty".toList sLower, 100), (scopeKey "binCountAndEmpty".toList sUpper, 1000)],
+      [(sBinsLB, 2), ("bins.lowerBound.damv".toList, 1)]⟩]
+
+example : PRDomain tinyCodec tinyView demoRecs where
+  ok := by decide
+  canon := by decide
+  bounds := by decide
+  objName := by decide
+  bbKey := by decide
+  bbSome := by decide
+  codec := tinyCodec_roundTrips _
+  keysDisj := by decide
+
+example : (prWrite tinyCodec demoRecs).isSome = true := by decide
+
+/-- outside the domain: a record without any bin bound is accepted by the constructor and written, but
+the reader rejects the table (observed on the real code as well) -/
+def noBoundRecs : List (PRec Str) :=
+  [⟨"a1".toList, 10, 5, 100, 50, [(sBinCount, 5)],
+      [(scopeKey sBinCount sLower, 1), (scopeKey sBinCount sUpper, 9)], []⟩]
+
+example : (prWrite tinyCodec noBoundRecs).isSome = true ∧
+    (prWrite tinyCodec noBoundRecs).bind (prRead tinyCodec tinyView) = none := by decide
+
+end Csv
+
+namespace Text
 
 /-! ## non-vacuity -/
 
